@@ -70,18 +70,19 @@ def tsMax (cur : Option Int) (t : Int) : Option Int :=
   | none => some t
   | some c => some (if t > c then t else c)
 
-abbrev SocAcc := Rat × Rat × Rat
+/-- the two running sums of `SoCCalculator.calculate`: (used capacity ×100, usable capacity ×100) -/
+abbrev SocAcc := Rat × Rat
 
 def socIter (s : SocAcc × Option Int) (b : Bat) : SocAcc × Option Int :=
   match b.values socRequired with
   | some (t, [capacity, upper, lower, soc]) =>
-    (socStep s.1.1 s.1.2.1 s.1.2.2 capacity upper lower soc, tsMax s.2 t)
+    (socStep s.1.1 s.1.2 capacity upper lower soc, tsMax s.2 t)
   | _ => s
 
 /-- `SoCCalculator.calculate`: `none` = `Sample(now, None)`, else (timestamp, percent). -/
 def socCalc (bs : List Bat) : Option (Int × Rat) :=
-  let r := bs.foldl socIter ((0, 0, 0), none)
-  r.2.map fun t => (t, socFinal r.1.1 r.1.2.1 r.1.2.2)
+  let r := bs.foldl socIter ((0, 0), none)
+  r.2.map fun t => (t, socFinal r.1.1 r.1.2)
 
 def capIter (s : Rat × Option Int) (b : Bat) : Rat × Option Int :=
   match b.values capRequired with
